@@ -55,9 +55,12 @@ def _eval_lca(st):
     sql = sqlgen.render(st, sqlgen.R(qualify=S))
     sure, maybe, star = c13.referenced(st)
     K = {}
-    for t in sqlgen.base_tables(st):
-        b = refsem.fq(t, S)
-        K[b] = sorted(set(sure.get(b, ())) | set(maybe.get(b, ()))) + ["id"]
+    bases = sorted({refsem.fq(t, S) for t in sqlgen.base_tables(st)})
+    for b in bases:
+        # well-formed knowledge: a column read unqualified over a join belongs to ONE of its candidates (the first by name) -
+        # were it listed by two, the statement would be ambiguous SQL
+        mine = {c for c in maybe.get(b, ()) if b == min(x for x in bases if c in maybe.get(x, ()))}
+        K[b] = sorted(set(sure.get(b, ())) | mine) + ["id"]
     # the aliases themselves are not columns of the sources
     aliases = set()
     sqlgen.walk_queries(st, lambda q: aliases.update(it["alias"] for b in q["branches"] for it in b["items"] if it["alias"]))
@@ -80,7 +83,8 @@ def _eval_lca(st):
 def ast_info(st, K=None):
     """structural predicates over the AST used to attribute a disagreement to a triaged finding class"""
     info = {"dup_names_in_setop": False, "star_over_sub_and_base": False, "star_beside_named_over_star_sub": False,
-            "join_inside_derived_under_join": False, "unq_multi_levels": 0, "star_over_relations_sharing_a_name": False}
+            "join_inside_derived_under_join": False, "unq_multi_levels": 0, "star_over_relations_sharing_a_name": False,
+            "star_over_two_relations_one_local": False}
 
     def names_of(sel):
         return [it["alias"] or (it["e"][2] if it["e"][0] == "col" else None) for it in sel["items"]]
@@ -102,6 +106,8 @@ def ast_info(st, K=None):
             kinds = [it["e"][0] for it in sel["items"]]
             if "star" in kinds and any(r["k"] != "base" for r in rels) and any(r["k"] == "base" for r in rels):
                 info["star_over_sub_and_base"] = True
+            if "star" in kinds and len(rels) > 1 and any(r["k"] != "base" for r in rels):
+                info["star_over_two_relations_one_local"] = True
             if "star" in kinds and len(kinds) > 1 and any(is_star_sub(r) for r in rels):
                 info["star_beside_named_over_star_sub"] = True
             if len(rels) > 1 and any(r["k"] == "derived" and any(len(b["from"]["rels"]) > 1 for b in r["q"]["branches"]) for r in rels):
@@ -173,7 +179,11 @@ def classify(st, dialect, res):
         return "F-C02-duplicate-output-names-in-set-operation"
     if info["star_beside_named_over_star_sub"]:
         return "F-C02-named-column-through-star-subquery"
+    if st.get("collist") and "item:star" in f and any(e[0] == "<none>" and e[1].rsplit(".", 1)[1] in st["collist"] for e in extra):
+        return "F-C02-column-list-ignored-next-to-star"
     if info["star_over_sub_and_base"] and any(e[0] == "<none>" for e in extra):
+        return "F-C02-star-over-subquery-and-base-table"
+    if info["star_over_two_relations_one_local"] and miss and not extra:
         return "F-C02-star-over-subquery-and-base-table"
     if extra and all(e[0].split(".")[0] in local for e in extra) and "item:star" in f and ("rel:derived" in f or "rel:cte" in f) and len(miss) >= len(extra):
         return "F-C02-named-column-through-star-subquery"
